@@ -1183,7 +1183,7 @@ fn idle_oracles(
     for c in callers.iter() {
         let info = ids.get(&c.body);
         // ---- C03 obligation
-        if c.res == Res::Abandoned && matches!(c.dl, Dl::Ms(_) | Dl::Past) {
+        if c.res == Res::Abandoned {
             if let Some(info) = info {
                 if !info.failed {
                     let replied = s.recv.iter().any(|r| r.item.id() == info.id);
@@ -1192,7 +1192,8 @@ fn idle_oracles(
                         .iter()
                         .any(|x| matches!(x.item, Item::Cancel { id, .. } if id == info.id) );
                     let slack = c.r_c.elapsed().as_millis() as u64 + 2;
-                    let certainly_unexpired = now + slack < info.v_arm + c.d_ms;
+                    // (a deadline beyond the supported span is enforced after one year at the latest)
+                    let certainly_unexpired = now + slack < info.v_arm + c.d_ms.min(YEAR_MS);
                     let conn_lost = read_closed || matches!(dres, Some(Err(_))) || s.failed;
                     // if the abandonment happened before the request was written the request
                     // must never have been transmitted at all
